@@ -185,10 +185,15 @@ impl InnerProductArgPC {
                     gather_ok(commitments@, values@, *point, ls, it3.index@ as nat),
                     forall|i: int| 0 <= i < it3.index@ ==> (#[trigger] comms@[i]) == commitments@[&ls[i]] && vals@[i] == values@[(ls[i], *point)],
 //@loopstart 3
-                    let ghost j = it3.index@;
+                    let ghost j = it3.index@; let ghost c0__ = comms@; let ghost v0__ = vals@;
                     proof { assert(*label == ls[j]); }
 //@loopend 3
-                    proof { assert(comms@[j] == commitments@[&ls[j]]); assert(vals@[j] == values@[(ls[j], *point)]); }
+                    proof {
+                        assert(comms@[j] == commitments@[&ls[j]]); assert(vals@[j] == values@[(ls[j], *point)]);
+                        assert forall|i: int| 0 <= i < j + 1 implies (#[trigger] comms@[i]) == commitments@[&ls[i]] && vals@[i] == values@[(ls[i], *point)] by {
+                            if i < j { assert(comms@[i] == c0__[i]); assert(vals@[i] == v0__[i]); assert(c0__[i] == commitments@[&ls[i]]); }
+                        }
+                    }
 //@afterloop 3
                 proof {
                     assert forall|i: int| 0 <= i < ls.len() implies vals@[i] == gather_v(values@, *point, ls)[i] by { let c = comms@[i]; assert(c == commitments@[&ls[i]]); }
